@@ -73,7 +73,6 @@ const char* const KNOWN_DEFECTS[] = {
     "C08-D3-whitespace-only-content-takes-default",      // SchemaValidator::checkContent: whitespace-only simple content is replaced by the default
     "C08-D4-fatal-error-for-invalid-value-with-fixed",   // SchemaValidator::checkContent: compare() throws before validate(); surfaces as fatal error
     "C08-D5-xsi-nil-false-leaks-to-next-element",        // SchemaValidator::validateElement / checkContent: fNilFound not cleared
-    "C08-D6-value-constraint-on-non-emptiable-mixed-accepted",  // TraverseSchema: cos-valid-default.2.2.2 not checked
 };
 bool g_skip_known = false;
 static std::string defect_tag(const std::string& caseDesc, const std::string& kind, const std::string& instance, const std::string& err) {
@@ -81,7 +80,6 @@ static std::string defect_tag(const std::string& caseDesc, const std::string& ki
     bool vc = caseDesc.find("vc=none") == std::string::npos;
     if (err.find("'xsi:nil' specified for non-nillable element") != std::string::npos && kind == "valid-instance-rejected") return KNOWN_DEFECTS[4];
     if (kind == "fatal-or-exception" && err.find("invalid character encountered") != std::string::npos && caseDesc.find("vc=fixed") != std::string::npos) return KNOWN_DEFECTS[3];
-    if (kind == "invalid-schema-accepted" && caseDesc.find("type=mixed-a ") != std::string::npos) return KNOWN_DEFECTS[5];
     if (mixedish && vc && (kind == "wrong-element-content" || kind == "invalid-instance-accepted")) return KNOWN_DEFECTS[1];
     if (kind == "invalid-instance-accepted" && caseDesc.find("vc=default") != std::string::npos && (instance == "<t:e> </t:e>" || instance == "<t:e>&#32;</t:e>")) return KNOWN_DEFECTS[2];
     return "";
@@ -362,6 +360,8 @@ static void build_content(const std::string& tier) {
         s += "</xs:schema>\n";
         bc.files["/v/s.xsd"] = s;
         if (vc != 0 && !tk.vcAllowed) { bc.schemaExpect = 1; bc.schemaWhy = "e-props-correct.2 / cos-valid-default: value constraint needs a simple type, simple content, or mixed content with emptiable particle"; }
+        // the emptiable-particle clause (cos-valid-default.2.2.2) is implemented as part of schema full checking (TraverseSchema::emptiableParticle): claimed there only
+        if (vc != 0 && tk.kind == 4) bc.schemaExpect = 3;
         for (auto& ct : cts) {
             Item it;
             it.xml = std::string("<t:e>") + ct.xml + "</t:e>";
